@@ -107,10 +107,24 @@ def log2_axioms(formulas):
     if z3.is_app(x) and x.decl().name() == "pow2":
       ax.append(I.LOG2(x) == z3.ToReal(x.arg(0)))
     s = z3.simplify(x)
-    if z3.is_rational_value(s) and s.denominator_as_long() == 1:
-      v = s.numerator_as_long()
-      if v > 0 and (v & (v - 1)) == 0:
-        ax.append(I.LOG2(x) == v.bit_length() - 1)
+    if z3.is_rational_value(s) and s.numerator_as_long() > 0:
+      # numeric bracket of log2 of a positive rational constant, to half-integer precision:
+      # 2^k <= v < 2^(k+1), and v^2 compared with 2^(2k+1) decides which half
+      from fractions import Fraction
+      v = Fraction(s.numerator_as_long(), s.denominator_as_long())
+      k = 0
+      while Fraction(2) ** k > v:
+        k -= 1
+      while Fraction(2) ** (k + 1) <= v:
+        k += 1
+      if Fraction(2) ** k == v:
+        ax.append(I.LOG2(x) == k)
+      else:
+        ax.append(z3.And(I.LOG2(x) > k, I.LOG2(x) < k + 1))
+        if v * v > Fraction(2) ** (2 * k + 1):
+          ax.append(I.LOG2(x) > z3.RealVal(k) + z3.RealVal("1/2"))
+        else:
+          ax.append(I.LOG2(x) < z3.RealVal(k) + z3.RealVal("1/2"))
     ax.append(z3.Implies(x >= 1, I.LOG2(x) >= 0))
     ax.append(z3.Implies(z3.And(x > 0, x <= 1), I.LOG2(x) <= 0))
     ax.append(z3.Implies(x >= 2, I.LOG2(x) >= 1))
